@@ -42,9 +42,10 @@ Has(e, f) == f \in DOMAIN e
 UMax == << 255, 255, 255, 255, 255, 255, 255, 255 >>
 MaxSpecBytes == 20000        \* blobs longer than this are compared py = rust only
 
-Pick(names, conds) == SelectSeq(names, LAMBDA n : conds[n])
-Names(fn) == LET D == DOMAIN fn IN  \* the keys of a record as a sequence, in a fixed order
-  CHOOSE s \in [1..Cardinality(D) -> D] : \A i, j \in 1..Cardinality(D) : i # j => s[i] # s[j]
+RECURSIVE BadKeys(_, _, _, _)
+BadKeys(pre, keys, rec, want) ==      \* the keys whose value in rec differs from want, as check names
+  IF keys = << >> THEN << >>
+  ELSE (IF rec[Head(keys)] # want THEN << pre \o Head(keys) >> ELSE << >>) \o BadKeys(pre, Tail(keys), rec, want)
 
 ---------------------------------------------------------------------------
 (* decoders of the specification as functions: [ok, tree, used]            *)
@@ -140,10 +141,8 @@ HashKeys == << "tree_hash", "sha256_treehash" >>
 PySerFails(e) ==
   LET t == TreeOf(e.tree)
       h == THM!TH(t)
-  IN  [i \in 1..Len(Pick(SerKeys, [k \in {SerKeys[j] : j \in 1..Len(SerKeys)} |-> e.py[k] # e.rust]))
-         |-> "bytes:" \o Pick(SerKeys, [k \in {SerKeys[j] : j \in 1..Len(SerKeys)} |-> e.py[k] # e.rust])[i]]
-      \o [i \in 1..Len(Pick(HashKeys, [k \in {HashKeys[j] : j \in 1..Len(HashKeys)} |-> e.py[k] # h]))
-         |-> "hash:" \o Pick(HashKeys, [k \in {HashKeys[j] : j \in 1..Len(HashKeys)} |-> e.py[k] # h])[i]]
+  IN  BadKeys("bytes:", SerKeys, e.py, e.rust)
+      \o BadKeys("hash:", HashKeys, e.py, h)
       \o (IF e.rust # SC!Encode(t) THEN << "spec:encode" >> ELSE << >>)
       \o (IF e.rust_hash # h THEN << "spec:hash" >> ELSE << >>)
 
